@@ -30,6 +30,7 @@ octet* fc_pub(fc_ctx* c, size_t n);    /* public input, exact size, from c->rng 
 octet* fc_sec(fc_ctx* c, size_t n);    /* secret input, exact size, from c->srng */
 octet* fc_out(fc_ctx* c, size_t n);    /* output buffer, exact size, 0xCD-filled */
 octet* fc_raw(fc_ctx* c, size_t n);    /* scratch, neither secret nor output */
+octet* fc_cut(fc_ctx* c, const void* p, size_t n); /* exact-size copy of the first n octets: a truncated input must not keep the slack of the original buffer */
 void fc_mark_pub(fc_ctx* c, const void* p, size_t n);
 void fc_mark_sec(fc_ctx* c, const void* p, size_t n);
 void fc_tape(void* buf, size_t count, void* state);  /* gen_i over c->tape */
